@@ -7,6 +7,7 @@ from pyvc.models import DECL_DOM, DECL_MAP
 from .lib import (DELAY, LOCAL, PULSE, TARGET, T, WDUR, clock, cs_arr, cs_at, cs_chan, cs_len, fget, fnone, in_eom, max_dur, max_dur_none,
                   min_dur, p_duration, p_phase, s_kind, s_pulse, s_targets, s_tf, s_ti, sch_dom, sch_get, sch_has, sch_map, valid_channel_f, PI)
 from .pulse import P_AMP, P_DET, P_PPS, valid_pulse
+from .channels import VDUR
 from .limits import LIMITS, amp_ok, avg_ok, det_ok, dmm_ok, valid_map, W_ARR, W_LEN
 from .basis_ref import QRINV, fmt, last_phase, last_time, q_last, q_phase
 from . import schedule as SC
@@ -43,8 +44,9 @@ contract(SQ, "Sequence.declared_channels", props=("C13",), trusted=True,
 # parametrized sequences keep an empty timeline-independent answer: only the built case is specified
 IS_EOM_P = uf("IS_EOM_PARAM", Ref, PStr, B)    # is_in_eom_mode for a parametrized sequence (function of the stored calls; unspecified here)
 
-contract(SQ, "Sequence.is_in_eom_mode", props=("C13", "C15"), trusted=True,
-         note="built case proved equal to the channel's in_eom_mode() would need the reversed() scan of stored calls (parametrized case) in the subset; stated here as the interface contract",
+contract(SQ, "Sequence.is_in_eom_mode", props=("C13", "C15"),
+         requires=lambda c: [("built", building(c.old, T(c.self))),
+                             ("eom-blocks-wf", z3.Implies(sch_has(c.old, SCH(c), T(c.channel)), SC.eb_len(c.old, CS(c)) >= 0))],
          params={"self": ("ref", "Sequence"), "channel": "str"}, result="bool",
          raises={"ValueError": lambda c: z3.And(building(c.old, T(c.self)), z3.Not(sch_has(c.old, SCH(c), T(c.channel)))),
                  },
@@ -62,7 +64,8 @@ def slm_waiting(c):
 
 contract(SQ, "Sequence._validate_channel", props=("C13",),
          params={"self": ("ref", "Sequence"), "channel": "str", "block_eom_mode": "bool", "block_if_slm": "bool"},
-         requires=lambda c: [("built", building(c.old, T(c.self)))],
+         requires=lambda c: [("built", building(c.old, T(c.self))),
+                             ("eom-blocks-wf", z3.Implies(sch_has(c.old, SCH(c), T(c.channel)), SC.eb_len(c.old, CS(c)) >= 0))],
          raises={"ValueError": lambda c: z3.Or(z3.Not(sch_has(c.old, SCH(c), T(c.channel))),
                                                z3.And(T(c.block_if_slm), slm_waiting(c), z3.Not(z3.And(T(c.block_eom_mode), in_eom(c.old, CS(c)))))),
                  "RuntimeError": lambda c: z3.And(sch_has(c.old, SCH(c), T(c.channel)), T(c.block_eom_mode), in_eom(c.old, CS(c)))},
@@ -127,6 +130,7 @@ def vap_ensures(c):
     ref = z3.If(z3.Or(c.phase_ref.none, T(c.phase_ref.val) == 0), z3.RealVal(0), T(c.phase_ref.val))
     out = [
         ("valid-pulse", valid_pulse(r)),
+        ("duration-is-the-rounding-function", d1 == VDUR(clock(ch), d0)),
         ("duration-is-clock-multiple", Al(clock(ch), d1)),
         ("duration-only-lengthened-to-next-multiple", z3.And(d0 <= d1, d1 < d0 + clock(ch))),
         ("duration-within-channel-limits", z3.And(d1 >= min_dur(ch), d0 >= min_dur(ch), z3.Or(max_dur_none(ch), d0 <= max_dur(ch)))),
@@ -520,4 +524,35 @@ contract(SQ, "Sequence._target", props=("C02", "C10", "C09", "C13"),
          modifies={SC.SLOTS: lambda c: [CS(c)]},
          exc_safe=True,
          exc_safe_if=lambda c: z3.Or(z3.Not(sch_has(c.old, SCH(c), T(c.channel))), SC.no_pending_fall(c.old, CS(c))),
+         )
+
+
+# --------------------------------------------------------------------------
+# estimate_added_delay (C03): its own postcondition + the relational check rel:estimate-equals-actual (pyvc/relational.py)
+# --------------------------------------------------------------------------
+def est_requires(c):
+    return [cl for cl in add_requires(Ctx2(c)) if cl[0] not in ("drift-params-only-in-eom",)]
+
+
+class Ctx2:
+    """view of an estimate_added_delay context as an _add context (no drift parameters)"""
+
+    def __init__(self, c):
+        self.__dict__.update(c.__dict__)
+        from pyvc.core import OptV, Sym, fresh, Ref
+        self.a = dict(c.a, phase_drift_params=OptV(z3.BoolVal(True), Sym(z3.Const("nodrift", Ref), ("ref", "_PhaseDriftParams"))))
+
+    def __getattr__(self, name):
+        a = self.__dict__.get("a", {})
+        if name in a:
+            return a[name]
+        raise AttributeError(name)
+
+
+contract(SQ, "Sequence.estimate_added_delay", props=("C03", "C09"),
+         params={"self": ("ref", "Sequence"), "pulse": ("ref", "Pulse"), "channel": "str", "protocol": "str"}, result="int",
+         requires=est_requires,
+         ensures=lambda c: [("non-negative", T(c.res) >= 0),
+                            ("zero-or-valid-duration", z3.Or(T(c.res) == 0, T(c.res) >= min_dur(cs_chan(CS(c)))))],
+         raises={"ValueError": ("only-if", lambda c: z3.BoolVal(True)), "RuntimeError": ("only-if", lambda c: z3.BoolVal(True)), "TypeError": ("only-if", lambda c: z3.BoolVal(True))},
          )
